@@ -518,13 +518,17 @@ func TestVerifC29(t *testing.T) {
 	probeNs := []int32{1, 2, M}
 	bumpNs := []int32{1, M}
 
+	abc3 := []int32{1, 3, M}
 	sweeps := []c29Sweep{
-		{name: "window-4096", half: 4096, firstNs: boundaryNs, nextNs: []int32{1, 3, M}, depth: 6},
+		{name: "window-4096-depth4", half: 4096, firstNs: boundaryNs, nextNs: abc3, depth: 4},
+		{name: "near-512-depth6", half: 512, firstNs: boundaryNs, nextNs: abc3, depth: 6},
 	}
 	if thorough {
 		sweeps = []c29Sweep{
-			{name: "window-4096", half: 4096, firstNs: boundaryNs, nextNs: []int32{1, 2, 5, 1 << 30, M}, depth: 6},
-			{name: "wide-2^20", half: 1 << 20, firstNs: boundaryNs, nextNs: []int32{1, 3, M}, depth: 3, wide: true},
+			{name: "window-4096-depth6", half: 4096, firstNs: boundaryNs, nextNs: abc3, depth: 6},
+			{name: "near-512-depth6-alphabet5", half: 512, firstNs: boundaryNs, nextNs: []int32{1, 2, 5, 1 << 30, M}, depth: 6},
+			{name: "wide-2^16-depth3", half: 1 << 16, firstNs: boundaryNs, nextNs: abc3, depth: 3, wide: true},
+			{name: "wide-2^20-depth2", half: 1 << 20, firstNs: boundaryNs, nextNs: abc3, depth: 2, wide: true},
 		}
 	}
 
